@@ -139,7 +139,11 @@ Record config := mkCfg {
   c_ws : bool;                  (* WebSocket framing *)
   c_hs_ok : bool;               (* oracle: the TLS handshake succeeds *)
   c_domain : bytes;             (* domainpart of the session's local address *)
-  c_tlsname : option bytes      (* ServerName of the tls.Config given to StartTLS, None = nil config *) }.
+  c_tlsname : option bytes;     (* ServerName of the tls.Config given to StartTLS, None = nil config *)
+  c_teefirst : bool             (* which negotiator.go is under test: false = `first := data == nil`
+                                   (false again after the tee-wrapping call returned its state, as on
+                                   main); true = `first` survives the tee-wrapping call (the repair that
+                                   belongs to C02).  Without tee the two coincide. *) }.
 
 (* negotiatorState *)
 Record nstate := mkNS { ns_restart : bool; ns_first : bool }.
@@ -536,7 +540,9 @@ Fixpoint session_loop (fuel : nat) (c : config) (m : mstate) (ns : nstate) (iste
   | S k =>
       if has (m_bits m) st_Ready then mkR ROk (m_bits m) m
       else if c_tee c && negb istee then
-        session_loop k c (set_negd [] m) ns true       (* s.Conn() is a teeConn from now on *)
+        (* s.Conn() is a teeConn from now on; the call returned its negotiatorState as
+           `data`, so `data == nil` does not hold at the next call *)
+        session_loop k c (set_negd [] m) (mkNS (ns_restart ns) (ns_first ns && c_teefirst c)) true
       else
         match negotiator_body c m ns with
         | (m1, Good (mask, restart, ns1)) =>
